@@ -553,6 +553,23 @@ def check(case, ctx):
                 return
         # ---- copies are independent: the other side of every copy pair is bit-identical to what it was right before this edit ----------
         for other, dg, side in counterpart:
+            # the derived views of the other side are its own as well (a tessellation component shared by a surface and its deep copy
+            # would hand the edited side's mesh to the other one): read the edited object's mesh, then the other side's
+            oo = other['o']
+            if oo.pdimension == 2 and oo.dimension == 3 and rng.random() < 0.5:
+                try:
+                    view(o, 'mesh')
+                    mine_ = view(oo, 'mesh')
+                    exp_ = view(fresh(oo, other['meta']), 'mesh')
+                except Exception:
+                    mine_ = exp_ = None
+                if mine_ is not None:
+                    ctx.tag('copy:mesh-of-the-other-side')
+                    same_ = len(mine_[0]) == len(exp_[0]) and mine_[1] == exp_[1] and \
+                        all(a_[0] == b_[0] and all(abs(x_ - y_) <= 1e-9 * max(1.0, abs(y_)) for x_, y_ in zip(a_[2], b_[2])) for a_, b_ in zip(mine_[0], exp_[0]))
+                    ctx.check(same_, 'copy/mesh-follows-other-side', 'after editing %s (%s) and reading its mesh, the mesh of its %s is not the mesh of a '
+                              'freshly built object with that definition' % ('the source' if side == 'source' else 'a deep copy', op,
+                                                                              'deep copy' if side == 'source' else 'source'), what='copy-independence')
             if side == 'source':
                 ctx.check(digest(other['o']) == dg, 'copy/changed-with-source', 'editing the source (%s) changed its deep copy' % op,
                           what='copy-independence')
